@@ -37,7 +37,8 @@ def build(case):
         yz, xz, rlat, dlat, dlon = cpr.encode(lat, lon, i, False)
         me = cpr.me_airborne(tc[i], case["ss"], case["saf"], case["alt"][i], case["tbit"], i, yz, xz)
         f = bits.es_frame(case["df"], case["ca"], case["addr"], me)
-        out.append(("%028X" % f, rlat))
+        hx = "%028X" % f
+        out.append((hx.lower() if case.get("lower") and (case["lower"] >> i) & 1 else hx, rlat))
     return out
 
 
@@ -149,7 +150,8 @@ def mkcase(rng, lat, lon, dist_nm=None, order=None):
     return {"p0": [lat, lon], "p1": [lat1, lon1], "tc": tc, "ss": rng.randrange(4), "saf": rng.randrange(2),
             "alt": [rng.getrandbits(12), rng.getrandbits(12)], "tbit": rng.randrange(2), "df": rng.choice((17, 17, 18)),
             "ca": rng.randrange(8), "addr": rng.getrandbits(24), "te": te, "to": to,
-            "dt": rng.random() < 0.15, "api": rng.choice(("position", "airborne_position"))}
+            "dt": rng.random() < 0.15, "api": rng.choice(("position", "airborne_position")),
+            "lower": rng.choice((0, 0, 0, 0, 0, 0, 0, 1, 2, 3))}
 
 
 def cases(ctx):
